@@ -102,7 +102,7 @@ def entry_fields(file, entry_pos, field_delim="\xFF"):
     # Read the the beginning of the ecc entry
     blocksize = 65535
     file.seek(entry_pos[0])
-    entry = file.read(blocksize)
+    entry = file.read(min(blocksize, entry_pos[1]-entry_pos[0])) # never read beyond the end of this entry: if one of its field delimiters is corrupted, we must not detect the delimiters of the following entries instead (else the ecc track position would point inside another entry, and the reading cursor would skip it)
     entry_len = len(entry)
     while entry.startswith(field_delim): entry = entry[len(field_delim):] # if there was some slight adjustment error (example: the last ecc block of the last file was the field_delim, then we will start with a field_delim, and thus we need to remove the trailing field_delim which is useless and will make the field detection buggy). This is not really a big problem for the previous file's ecc block: the missing ecc characters (which were mistaken for a field_delim), will just be missing (so we will lose a bit of resiliency for the last block of the previous file, but that's not a huge issue, the correction can still rely on the other characters). Note: we remove whole delimiters only (lstrip() would strip any leading character that is part of the delimiter, and thus eat the first characters of a filepath beginning with \xFA or \xFF).
     stripped = entry_len - len(entry) # number of characters removed, to keep the absolute positions below correct
@@ -787,6 +787,8 @@ Note2: that Reed-Solomon can correct up to 2*resilience_rate erasures (eg, null 
                         files_repaired_partially += 1
                     else:
                         files_repaired_completely += 1
+                # Place back the reading cursor at the end of this ecc entry: the last ecc block read may have gone beyond it (misaligned or corrupted ecc track), and the beginning of the next ecc entry must not be skipped
+                if db.tell() > entry_p["ecc_field_pos"][1]: db.seek(entry_p["ecc_field_pos"][1])
         # All ecc entries processed for checking and potentally repairing, we're done correcting!
         bardisp.close() # at the end, the bar may not be 100% because of the headers that are skipped by read_next_entry() and are not accounted in bardisp.
         ptee.write("All done! Stats:\n- Total files processed: %i\n- Total files corrupted: %i\n- Total files repaired completely: %i\n- Total files repaired partially: %i\n- Total files corrupted but not repaired at all: %i\n- Total files skipped: %i" % (files_count, files_corrupted, files_repaired_completely, files_repaired_partially, files_corrupted - (files_repaired_partially + files_repaired_completely), files_skipped) )
